@@ -100,7 +100,7 @@ func (r *validationResponseHandler) HandleValidationResponse(
 		_, storedNoCache := storedCC.NoCache()
 		// stale-if-error does not override must-revalidate or no-cache (RFC 5861 §4, RFC 9111 §4.2.4)
 		if !storedCC.MustRevalidate() && !storedNoCache && !ctx.CCReq.NoCache() &&
-			r.siep.CanStaleOnError(ctx.Freshness, ccResp) {
+			r.siep.CanStaleOnError(ctx.Freshness, storedCC, ctx.CCReq) {
 			// RFC 9111 §4.2.4 Serving Stale Responses
 			// RFC 9111 §4.3.3 Handling Validation Responses (5xx errors)
 			SetAgeHeader(ctx.Stored.Data, r.clock, ctx.Freshness.Age)
